@@ -72,6 +72,8 @@ def run(
     meta = wd / ("meta_" + cfgname.replace(".cfg", ""))
     shutil.rmtree(meta, ignore_errors=True)
     cmd = ["java", "-XX:+UseParallelGC", "-Xmx12g"]
+    if os.environ.get("VERIF_SCRATCH"):
+        cmd.append("-Djava.io.tmpdir=" + os.environ["VERIF_SCRATCH"])  # TLC unpacks its standard modules there
     cmd += java_opts or []
     cmd += ["-cp", JAR, "tlc2.TLC", "-config", cfgname, "-metadir", str(meta), "-noGenerateSpecTE"]
     cmd += ["-workers", str(workers or NCPU)]
@@ -200,7 +202,7 @@ def extract_prints(out: str) -> list:
 
 def sany(module_path: Path) -> tuple[bool, str]:
     p = subprocess.run(
-        ["java", "-cp", JAR, "tla2sany.SANY", module_path.name],
+        ["java"] + (["-Djava.io.tmpdir=" + os.environ["VERIF_SCRATCH"]] if os.environ.get("VERIF_SCRATCH") else []) + ["-cp", JAR, "tla2sany.SANY", module_path.name],
         cwd=module_path.parent,
         capture_output=True,
         text=True,
